@@ -12,7 +12,10 @@ RULE = (
     "bits), rotations/entanglers on the remaining qubits; simulator seed and both sample-count "
     "regimes (< 2^n and > 2^n) drawn. Oracle: reference state from numpy embedding; tuple t <-> "
     "index sum t_q 2^(n-1-q). Non-trivial: n>=2 and a non-palindromic deterministic pattern "
-    "(an endianness flip is observable). Distinct = distinct spec JSON."
+    "(an endianness flip is observable). Distinct = distinct spec JSON. SWAPs between any two qubits route the "
+    "deterministic bits around (roles tracked by the generator); a third of the cases add a request of 4096..70000 samples; "
+    "small circuits are also simulated with free symbols and bound afterwards; wide_register repeats the oracle on 6..11 qubits "
+    "with few-qubit operators reaching qubit >= 8."
 )
 ASSUMPTIONS = [
     "gate parameters are Python floats; widths <= 5",
